@@ -406,7 +406,7 @@ func (gang *Gang) setChild(pod *v1.Pod) {
 	} else {
 		klog.V(6).Infof("UpdateChild, gangName: %v, childName: %v", gang.Name, podId)
 	}
-	if pod.Spec.NodeName == "" && gang.WaitingForBindChildren[podId] == nil {
+	if pod.Spec.NodeName == "" && gang.WaitingForBindChildren[podId] == nil && gang.BoundChildren[podId] == nil {
 		_, pendingExisted := gang.PendingChildren[podId]
 		gang.PendingChildren[podId] = pod
 		if !pendingExisted {
